@@ -174,6 +174,9 @@ macro "fmt_finish" v:ident raw:ident rp:term:max hloop:ident hstep:ident hok:ide
     case hs =>
       intro s b val hval hor
       try dsimp only
+      have hcomm : (lowerStr b.2 == lowerStr b.1) = (lowerStr b.1 == lowerStr b.2) := by
+        rw [Bool.eq_iff_iff]; simp only [beq_iff_eq]; exact eq_comm
+      try simp only [hcomm]
       simp only [pyGetItem, hval, v1_ebind_ok, idStep, Option.getD_some]
       by_cases hl : (lowerStr b.1 == lowerStr b.2) = true
       · simp only [hl, if_true, v1_ebind_ok]
